@@ -258,17 +258,17 @@ def define(tier=None):
     mq = ["", "y", "e", "a", "5"]
     space("nest2", [["r4", "rcr"], mq, mq, seqs(a1, 2), seqs(SIMPLE_Q, 2)], b_nest2,
           doc="two levels: routing of every signal by the masks of both levels; resume/cancel/propagate/each of the child")
-    space("nest2+", [sorted(ROOT_SCRIPTS_2), MASKS_DESIGN, MASKS_DESIGN, seqs(a1 + [ST(2), SG(0)], 2), seqs(SIMPLE_M, 2)], b_nest2,
-          doc="all 10 design masks on both levels, 3 root scripts, more statements")
-    space("nest2-deep+", [["r4"], MASKS_Q, MASKS_Q, seqs(a1, 3, 3), seqs(SIMPLE_Q, 2)], b_nest2,
-          doc="parent bodies of exactly 3 statements")
+    space("nest2+", [["r4", "rcr"], MASKS_DESIGN, MASKS_DESIGN, seqs(a1 + [ST(2), SG(0)], 2), seqs(SIMPLE_M, 2)], b_nest2,
+          doc="all 10 design masks on both levels, more statements")
+    space("nest2-deep+", [["r4", "bare"], MASKS_Q, MASKS_Q, seqs(a1, 3, 3), seqs(SIMPLE_Q, 1)], b_nest2,
+          doc="parent bodies of exactly 3 statements; root without try (the root itself in the signal path)")
     # ---- reenter
     acts = [RES(1), RES(2), CAN(1), CAN(2)]
     b1q = [[RES(2)], [RES(2), Y], [T(RES(2))], [("defer", [RES(2)])], [EACH2], [RES(2), PROP(2)]]
     space("reenter", [seqs(acts, 3, 1), ["", "y"], ["", "y", "e"], b1q, seqs([Y, ST(1), RES(1), CAN(1)], 2)], b_reenter,
           doc="the root resumes/cancels both the parent and (directly) the child that is still suspended under it; "
               "the child may resume/cancel its parent")
-    space("reenter+", [seqs(acts, 4, 1), ["", "y", "a"], MASKS_S, REENTER_B1, seqs([Y, SG(5), ER, RES(1), CAN(1), ST(1)], 2)], b_reenter,
+    space("reenter+", [seqs(acts, 4, 1), ["", "y", "a"], MASKS_S, REENTER_B1, seqs([Y, SG(5), RES(1), CAN(1), ST(1)], 2)], b_reenter,
           doc="root scripts of <=4 actions, 3x4 masks")
     # ---- nest3 / siblings
     m3 = ["", "y", "e"]
@@ -280,9 +280,9 @@ def define(tier=None):
     space("siblings", [["r4", "rcr"], ["y", "a"], m3, m3, seqs([RES(2), RES(3), CAN(2), CAN(3)], 2),
                        seqs([Y, ER, SG(5), RES(3), RES(1)], 1), seqs([Y, ER, SG(5), RES(2)], 1)], b_sib,
           doc="one parent, two children that may resume each other or their parent")
-    space("siblings+", [["r4", "rcr"], ["y", "a"], MASKS_S, MASKS_S, seqs([RES(2), RES(3), CAN(2), CAN(3)], 3),
+    space("siblings+", [["r4", "rcr"], ["y", "a"], m3, m3, seqs([RES(2), RES(3), CAN(2), CAN(3)], 3),
                         seqs([Y, ER, SG(5), RES(3), RES(1)], 2), seqs([Y, ER, SG(5), RES(2)], 1)], b_sib,
-          doc="parent bodies <=3, first child <=2, 4x4 masks")
+          doc="parent bodies <=3, first child <=2")
     # ---- cleanup
     scc = sorted(ROOT_SCRIPTS_C)
     space("cleanup1", [scc, ["", "y", "e", "t", "a", "5"], KINDS, seqs([Y, ER, SG(0), SG(4), SG(5), SG(9), RET], 2), [[], [Y]]],
@@ -328,7 +328,8 @@ def plan(tier):
     first = [n for n in names if not n.endswith("+")]
     if tier == "quick":
         return first
-    return first + [n for n in names if n.endswith("+")]
+    # bound 2: smallest spaces first, so that a loaded machine completes as many parts as possible
+    return first + sorted([n for n in names if n.endswith("+")], key=lambda n: SPACES[n].size)
 
 
 def bound_text(tier, done):
